@@ -152,6 +152,14 @@ impl Prop for C08 {
          misplacement mutant; distinct by hash of (definition, argv)."
     }
     fn check(&self, bytes: &[u8], ctx: &mut Ctx) -> Verdict {
+        // one case in eight: a choice between a positional branch and subcommands (altcmd.rs)
+        if bytes.first().map_or(false, |b| b % 8 == 7) {
+            let c = crate::altcmd::decode(&bytes[1..], false);
+            if c.argv.len() >= 2 {
+                ctx.nontrivial(fnv_str(&format!("{:?}{:?}", c.level, c.argv)));
+            }
+            return crate::altcmd::check(&c, ctx);
+        }
         let case = decode(bytes);
         let parser = match guarded(|| {
             let p = build_level(&case.level);
@@ -338,7 +346,16 @@ impl Prop for C08 {
         }
         Verdict::Pass
     }
+    fn regressions(&self) -> Vec<crate::engine::Regression> {
+        vec![crate::engine::Regression {
+            name: "surplus-word-after-command-under-fallback-in-a-choice-with-positionals",
+            run: crate::altcmd::reg_fallback_cmd_surplus,
+        }]
+    }
     fn describe(&self, bytes: &[u8]) -> Value {
+        if bytes.first().map_or(false, |b| b % 8 == 7) {
+            return crate::altcmd::describe(&crate::altcmd::decode(&bytes[1..], false));
+        }
         let case = decode(bytes);
         json!({
             "definition": show_level(&case.level),
